@@ -8,7 +8,7 @@
 (* a hand-written executor that counts polls.                                      *)
 EXTENDS Naturals, Sequences, FiniteSets, TLC, Json
 
-CONSTANTS Asyncs, Values, MaxSteps, RestoreOnDrop, IsolateSiblings
+CONSTANTS Asyncs, Values, MaxSteps, RestoreOnDrop, IsolateSiblings, Faults
 
 None == "none"
 VARIABLES alive, faked, hist
@@ -25,6 +25,11 @@ Fake(a, v) ==
   /\ faked' = IF IsolateSiblings THEN [faked EXCEPT ![a] = v]
               ELSE [b \in Asyncs |-> IF b = a \/ (a = "a1" /\ b = "a2") THEN v ELSE faked[b]]   \* deviation: same-output siblings share
   /\ hist' = Append(hist, [act |-> "Fake", a |-> a, v |-> v]) /\ UNCHANGED alive
+
+\* the operating system refuses to make the function's page writable: the request panics and changes nothing
+FakeRefused(a, v) ==
+  /\ Faults /\ alive /\ Len(hist) < MaxSteps
+  /\ hist' = Append(hist, [act |-> "FakeRefused", a |-> a, v |-> v]) /\ UNCHANGED <<alive, faked>>
 
 Await(a, other) ==
   /\ Len(hist) < MaxSteps
@@ -48,7 +53,7 @@ PanicDrop ==
   /\ faked' = IF RestoreOnDrop THEN [a \in Asyncs |-> None] ELSE faked
   /\ hist' = Append(hist, [act |-> "PanicDrop"])
 
-Next == New \/ Drop \/ PanicDrop \/ (\E a \in Asyncs : (\E v \in Values : Fake(a, v)) \/ (\E o \in BOOLEAN : Await(a, o)))
+Next == New \/ Drop \/ PanicDrop \/ (\E a \in Asyncs : (\E v \in Values : Fake(a, v) \/ FakeRefused(a, v)) \/ (\E o \in BOOLEAN : Await(a, o)))
 Spec == Init /\ [][Next]_avars
 
 \* C14 as invariants of the model
